@@ -14,13 +14,13 @@ import json, sys, random, warnings
 warnings.filterwarnings("ignore")
 import numpy as np
 be = sys.argv[1]
-def mk(F):
+def mk(F, fps=30.0):
     data = np.arange(F * 1 * 2 * 2, dtype=np.float32).reshape(F, 1, 2, 2) + 1
     conf = np.ones((F, 1, 2), dtype=np.float32)
     conf[:, 0, 0] = 0.5 + np.arange(F, dtype=np.float32) / 256          # a distinct confidence per frame
     conf[1::2, 0, 1] = 0                                                 # and a missing point in every odd frame
     from pose_format.numpy import NumPyPoseBody
-    b = NumPyPoseBody(30.0, data, conf)
+    b = NumPyPoseBody(fps, data, conf)
     return b if be == "numpy" else (b.torch() if be == "torch" else b.tensorflow())
 def frames_of(body):
     """per frame: [first coordinate, confidence of point 0 (in 1/256), point 1 missing?] — the three things a frame carries"""
@@ -37,7 +37,7 @@ def frames_of(body):
 for line in sys.stdin:
     if not line.strip(): continue
     c = json.loads(line)
-    body = mk(c["F"])
+    body = mk(c["F"], c.get("fps", 30.0))
     random.seed(c["seed"]); np.random.seed(c["seed"])
     if be == "tf":
         import tensorflow as tf
@@ -91,6 +91,8 @@ def gen_cases(rng, ctx):
                 cases.append({"F": F, "call": "select_frames", "ixs": v, "seed": 0})
         for by in sorted({1, 2, 3, 7, F, F + 1}):
             cases.append({"F": F, "call": "slice_step", "by": by, "seed": 0})
+            for fps in (25, 30, 29.97, 0.5):                 # a Python int (v0.1 files, interpolate(new_fps=int), user code) and rates no step divides
+                cases.append({"F": F, "call": "slice_step", "by": by, "seed": 0, "fps": fps})
         for p in [0.0, 0.25, 0.5, 0.125, 0.3, 0.75, 0.99, 1.0, 1.5]:
             for seed in range(ctx.pick(4, 40)):
                 cases.append({"F": F, "call": "frame_dropout_given_percent", "args": [p], "seed": seed})
@@ -121,11 +123,11 @@ def run(ctx):
                 ctx.violation("a frame operation changes the pose it is applied to, or gives another result the second time", info,
                               {"source_changed": o.get("source_after") != src}, True, size=F, signature=dict(sig, clause="source")); continue
             if c["call"] == "select_frames":
-                if o["frames"] != [src[i] for i in c["ixs"]] or o["fps"] != 30.0:
+                if o["frames"] != [src[i] for i in c["ixs"]] or o["fps"] != c.get("fps", 30.0):
                     ctx.violation("select_frames does not return exactly the requested frames in the requested order", info, {"got": o["frames"]}, True, size=F, signature=sig)
                 continue
             if c["call"] == "slice_step":
-                if o["frames"] != src[::c["by"]] or abs(o["fps"] - 30.0 / c["by"]) > 1e-6:
+                if o["frames"] != src[::c["by"]] or abs(o["fps"] - c.get("fps", 30.0) / c["by"]) > 1e-6 * max(1.0, c.get("fps", 30.0)):
                     ctx.violation("slice_step does not return frames 0, k, 2k, … at fps / k", info, {"got": o["frames"], "fps": o["fps"]}, True, size=F, signature=sig)
                 continue
             idx = o["indexes"]
